@@ -551,9 +551,15 @@ def run(ctx):
             for first in ([2 ** 31 - 20] if ctx.tier == "quick" else [2 ** 31 - 20, 2 ** 32 - 20, 2 ** 53, 2 ** 62]):
                 cases.append(many_case("m%d" % n, ctx.rng, schema, 30, 60, chain=20, first_id=first))
                 n += 1
+    c0 = cases[0]
+    ctx.sample({"schema": c0["schema"], "ops": [o for o in c0["ops"] if o["op"] not in ("observe_all", "note")][:10]})
+    on = lambda r: judge_many(ctx, r) if r.case.get("_many") else judge_case(ctx, r)   # noqa: E731
+    runner.run_cases(cases, cfg="plain", on_result=on, stall_timeout=120)
+    # the bounded-exhaustive family is generated, run and judged in slices, so that memory stays bounded
     alpha = exhaustive_alphabet()
     depth = 2 if ctx.tier == "quick" else 3
     nexh = 0
+    cases = []
     for schema in EXH_VERSIONS:
         for L in range(1, depth + 1):
             for seq in itertools.product(alpha, repeat=L):
@@ -561,18 +567,19 @@ def run(ctx):
                 cases.append(wrap_case("e%d" % n, schema, ops, metas))
                 n += 1
                 nexh += 1
+                if len(cases) >= 20000:
+                    runner.run_cases(cases, cfg="plain", on_result=on, stall_timeout=120)
+                    cases = []
     ctx.extra["exhaustive_cases"] = nexh
     ctx.extra["exhaustive_scope"] = (f"all sequences of length <= {depth} over {len(alpha)} operations on the forest "
                                      f"a>b>c, d on versions {EXH_VERSIONS}")
     ctx.exhaustive = False
-    c0 = cases[0]
-    ctx.sample({"schema": c0["schema"], "ops": [o for o in c0["ops"] if o["op"] not in ("observe_all", "note")][:10]})
     ctx.assumptions += [
         "where the statement is silent (duplicate sibling names; whether descendants of a removed crate go too) either "
         "outcome is accepted and the model follows what was observed, but a throwing call must change nothing",
         "exception types are not judged; id reuse after removal is not a collision",
         "termination judged by a VDBE step budget of 5*10^7 per call"]
-    runner.run_cases(cases, cfg="plain", on_result=lambda r: judge_many(ctx, r) if r.case.get("_many") else judge_case(ctx, r), stall_timeout=120)
+    runner.run_cases(cases, cfg="plain", on_result=on, stall_timeout=120)
     seen = set(ctx.extra.get("cases_by_schema", {}))
     if seen != set(ALL_SCHEMAS):
         ctx.fail_harness("schema versions not covered: %s" % sorted(set(ALL_SCHEMAS) - seen))
